@@ -719,20 +719,16 @@ def install(sched):
         (_rtime.time, ftime.time), (_rtime.sleep, ftime.sleep), (_rtime.monotonic, ftime.monotonic),
         (_rsel.DefaultSelector, FSelector), (_rsel.SelectSelector, FSelector),
     ]
-    for modname, mod in list(_sys.modules.items()):
-        if mod is None or not (modname == "websocket" or modname.startswith("websocket.")) or modname.startswith("websocket.tests"):
-            continue
-        for name, val in list(vars(mod).items()):
-            for real, fake in by_identity:
-                if val is real:
-                    _saved[(mod, name)] = val
-                    setattr(mod, name, fake)
-                    break
+    from . import seams
+    by_identity.append((_rinspect.stack, finsp.stack))
+    p = seams.Patch().apply(by_identity)
+    _saved["patch"] = p
 
 
 def uninstall():
     global CUR
     CUR = None
-    for (mod, name), val in list(_saved.items()):
-        setattr(mod, name, val)
+    p = _saved.pop("patch", None)
+    if p is not None:
+        p.undo()
     _saved.clear()
